@@ -530,7 +530,7 @@ func c07Piggyback(w *World, r *Report) {
 		nst := 0
 		bad := ""
 		var inOwner ssa.Value
-		// the exchange may have been moved into a helper method of the same endpoint
+		// the exchange may have been moved into a helper of the same package (a method of the endpoint or of the session object)
 		entry := fn
 		for _, g := range staticCone(entry, 2) {
 			has := false
@@ -541,7 +541,7 @@ func c07Piggyback(w *World, r *Report) {
 					}
 				}
 			})
-			if has && recvNamed(fnObj(g)) == recvNamed(fnObj(entry)) {
+			if has && g.Pkg == entry.Pkg {
 				fn = g
 				break
 			}
